@@ -484,10 +484,12 @@ def check_runs(ctx, runs, binary):
             out2 = r['trace'] + '.rerun%d' % attempt
             rc2, o2 = run_harness(binary, r['prog'], out2, r['nw'], r['seed'], r['strat'])
             rcs.append(rc2)
-            if rc2 == r['rc'] or rc2 == 0:
+            if rc2 == r['rc'] or rc2 == 0 or attempt >= 1:
                 break
+        if rcs[-1] != 0 and rcs[-1] != r['rc'] and all(x != 0 for x in rcs):
+            rcs[-1] = r['rc']          # fails every time, if not always the same way (e.g. killed for memory, then time-out)
         if rcs[-1] == r['rc']:
-            kind = {3: 'DEADLOCK', 4: 'CRASH', 5: 'HANG', 6: 'HANG after the trace was closed (finalisation never ends)', 124: 'TIMEOUT'}.get(r['rc'], 'exit %d' % r['rc'])
+            kind = {3: 'DEADLOCK', 4: 'CRASH', 5: 'HANG', 6: 'HANG after the trace was closed (finalisation never ends)', 124: 'TIMEOUT', -9: 'KILLED'}.get(r['rc'], 'exit %d' % r['rc'])
             r['verdict'] = kind
             r['bad'] = True
             good.append(r)   # its (truncated) trace is still validated: the rejection point localises the cause
